@@ -27,8 +27,7 @@ open Torf Torf.Paths Torf.Create
 /-- For every world that lists real names, every sequence of `path` assignments and callback
     firings, from a new object: if `_path` is set at the end (by reading a path), `info` is what
     reading that path with the final settings gives.  No hypothesis on spellings, the cwd, the
-    patterns or the shape of the trees (D15b–D15d are deviations of `scan` from the specification,
-    not dependences on the history). -/
+    patterns or the shape of the trees. -/
 theorem C15_history_independent (o : Oracles) (w : World) (hw : w.Clean) (ops : List HOp)
     (B : PPath)
     (hre : (run o w HSt.init ops).reattached = false)
@@ -56,18 +55,19 @@ theorem C15_history_independent_from (o : Oracles) (w : World) (hw : w.Clean) (s
     scan o (run o w s0 ops).st w B = .ok (run o w s0 ops).created :=
   HInv_run o w hw s0 ops h0 hre B hB
 
-/-- Under `hypB` for the final settings the history ends in the specified torrent. -/
+/-- If `_path` leads to tree `t` (`hypB`: well-formedness only) the history ends in the specified
+    torrent for the final settings. -/
 theorem C15_history_spec (o : Oracles) (w : World) (hw : w.Clean) (ops : List HOp)
     (B : PPath) (order : List FileEnt) (t : Tree)
     (hre : (run o w HSt.init ops).reattached = false)
     (hB : (run o w HSt.init ops).path = some B)
     (hl : w.listing B = some order)
-    (hyp : Spec.hypB (run o w HSt.init ops).st ⟨w.cwd, B, order, w.pathExists⟩ t = true) :
+    (hyp : Spec.hypB ⟨w.cwd, B, order, w.pathExists⟩ t = true) :
     (run o w HSt.init ops).created = Spec.created o (run o w HSt.init ops).st t := by
   have h := C15_history_independent o w hw ops B hre hB
   unfold scan at h
   rw [hl] at h
-  simp only [C15_created_partial o _ _ t hyp] at h
+  simp only [C15_created_env o _ _ t hyp] at h
   exact (Except.ok.inj h).symm
 
 /-- With files in the torrent, `info['name']` is the name stored with them. -/
